@@ -41,6 +41,98 @@ theorem parked_after_response (rem : Cid → Bool) (l : Loader.State) (lt : LT) 
   unfold Loader.ingest Loader.setOnline
   simp [hmd, hopen, hrq, honest_items_rebuiltW, hq]
 
+/-- **C06.reopen_reached** (reachability: the invariants (i)–(iii) at the re-opening, from the initial
+    state).  Any messages `m1` during which block `k` is not loaded, a message `M` (no failure status)
+    during which the block hook pauses the request at block `k`, every load up to the pause answered with
+    data (`hnm`, `hcur`), `Unpause`, and the resumed executor sends a request again (`hre`, with
+    do-not-send-first-blocks `w`).  Then the exchange stands in a state `rP` that is parked in the
+    retried load of the node `n` under the cursor (iii), right after going online: empty queue, fresh
+    verifier over the traversal record, which is the record of the `K = |root :: pre'| ≥ k` links
+    loaded so far (i), all of them delivered — the reported answers are exactly these — and their
+    blocks are in the store (ii); `w = max u K`; the store has grown, relative to the initial one,
+    only by blocks of the link tree (`QE`). -/
+theorem reopen_reached (loc : List (Cid × Blk)) (hloc : HonestStore loc)
+    (root : LNode) (tl : LT) (u k : Nat) (m1 : List Requestor.Msg) (M : Requestor.Msg) (w : Nat)
+    (hwk : ∀ m, PauseResume.Op.msg m ∈ m1.map toOp ++ [toOp M] → WellKeyed m.blocks)
+    (hpre : (Requestor.exchange loc (root :: tl) u m1).1.nBlocks < k)
+    (hctx : (Requestor.exchange loc (root :: tl) u m1).1.ctxCancelled = false)
+    (hfail : isFailure M.status = false) :
+    let lt := root :: tl
+    let pausedX := PauseResume.exchange loc lt u [k] (m1.map toOp ++ [toOp M])
+    let parkedX := PauseResume.exchange loc lt u [k] (m1.map toOp ++ [toOp M, PauseResume.Op.unpause])
+    pausedX.1.paused = true →
+    missingOf pausedX.2 = [] → pausedX.1.R.todo.length + k = lt.length →
+    sentNews parkedX.2 = sentNews pausedX.2 ++ [w] →
+    ∃ (rP : Requestor.State) (pre' : LT) (n : LNode) (rest : LT),
+      parkedX.1 = hooked [k] rP ∧ lt = root :: pre' ++ n :: rest ∧ Parked rP (root :: pre') n rest ∧
+      k ≤ pre'.length + 1 ∧ w = max u (pre'.length + 1) ∧
+      resultsOf parkedX.2 = ((root :: pre').map (fun m => (m, true))).map keyOf ∧ QE lt loc rP := by
+  intro lt pausedX parkedX hpaused hnm hcur hre
+  obtain ⟨r', e0, hX, hk, hP⟩ := pause_point loc lt u k m1 M hpre hctx hfail hpaused
+  have hX' : pausedX = ((stopForPause (hooked [k] r')).1, e0 ++ [Ev.sentCancel]) := hX
+  -- the delivered prefix at the pause
+  have hsteps : Steps lt pausedX.2 pausedX.1.R.todo := pause_resume_walk loc hloc lt u [k] _ hwk
+  obtain ⟨ld, hld1, hld2⟩ := steps_results hsteps hnm
+  have htodo' : pausedX.1.R.todo = r'.todo := by rw [hX']; rfl
+  obtain ⟨loaded, hq⟩ := hP.1.1
+  have hll : loaded = ld := hq.unique (by rw [← htodo']; exact hld1)
+  subst hll
+  have hlen : loaded.length = k := by
+    have := congrArg List.length hld1
+    simp only [List.length_append] at this
+    omega
+  -- the Unpause
+  have hops1 : m1.map toOp ++ [toOp M, PauseResume.Op.unpause] = (m1.map toOp ++ [toOp M]) ++ [PauseResume.Op.unpause] := by simp
+  have hpk : parkedX = ((PauseResume.unpause pausedX.1).1, pausedX.2 ++ (PauseResume.unpause pausedX.1).2) := by
+    show PauseResume.exchange loc lt u [k] (m1.map toOp ++ [toOp M, PauseResume.Op.unpause]) = _
+    rw [hops1, pexchange_snoc]
+    rfl
+  have hU := unpause_reopen lt loc u k r' loaded hP hq hk hlen
+  have hX1 : pausedX.1 = (stopForPause (hooked [k] r')).1 := by rw [hX']
+  rw [← hX1] at hU
+  rcases hU with hno | ⟨extra, n, rest, evs, rP, h1, h2, h3, h4, h5, hqe⟩
+  · exfalso
+    rw [hpk] at hre
+    simp only [sentNews_append, hno, List.append_nil] at hre
+    have := congrArg List.length hre
+    simp at this
+  · rw [h1] at hpk
+    simp only at hpk
+    -- the skip value of the re-sent request
+    have hw : w = max u (loaded ++ extra).length := by
+      rw [hpk] at hre
+      simp only [sentNews_append, h2, List.nil_append] at hre
+      have := List.append_cancel_left hre
+      simp only [sentNews, List.cons.injEq, and_true] at this
+      exact this.symm
+    -- the split of the link tree at the re-opening
+    have hk0 : 0 < k := by omega
+    cases hle : loaded ++ extra with
+    | nil =>
+      exfalso
+      have := congrArg List.length hle
+      simp only [List.length_append, List.length_nil] at this
+      omega
+    | cons root' pre' =>
+      have hlenK : loaded.length + extra.length = pre'.length + 1 := by
+        have := congrArg List.length hle
+        simpa using this
+      rw [hle] at h4 h5 hw
+      have h4' : root :: tl = root' :: (pre' ++ n :: rest) := by
+        have : lt = root :: tl := rfl
+        rw [← this, h4]; simp
+      simp only [List.cons.injEq] at h4'
+      obtain ⟨hroot, htl⟩ := h4'
+      subst hroot
+      refine ⟨rP, pre', n, rest, by rw [hpk], ?_, h5, by omega, by rw [hw]; simp, ?_, hqe⟩
+      · show root :: tl = _
+        rw [htl]; simp
+      · rw [hpk]
+        simp only [resultsOf_append, hld2, h3]
+        have hs0 : resultsOf [Ev.sentNew (max u (loaded ++ extra).length)] = [] := rfl
+        rw [hs0, List.append_nil, ← hle]
+        simp
+
 /-- **C06.requestor_reopen_online** (case (c) end to end, from the initial state).
     Link tree `root :: tl` (well formed, paths in depth-first order), any local store, any user skip
     value `u`, hook pause at block `k`.  Any messages `m1` during which block `k` is not loaded, then
@@ -84,127 +176,294 @@ theorem requestor_reopen_online (rem : Cid → Bool) (loc : List (Cid × Blk)) (
     (∀ it ∈ items.take w, it.action = .present → holds parkedX.1.R.L.store it.link = true) →
     resultsOf res.2 = (refTrav rem lt parkedX.1.R.L.store none).1.map keyOf ∧
     (∀ c, holds res.1.R.L.store c = holds (refTrav rem lt parkedX.1.R.L.store none).2 c) ∧
-    res.1.paused = false ∧
-    ∃ K, k ≤ K ∧ w = max u K ∧ parkedX.1.R.nBlocks = K ∧
-      ∀ m ∈ lt.take K, holds parkedX.1.R.L.store m.cid = true := by
+    res.1.paused = false := by
   intro lt pausedX parkedX items res hpaused hnm hcur hre hunf hremroot hwin
-  obtain ⟨r', e0, hX, hk, hP⟩ := pause_point loc lt u k m1 M hpre hctx hfail hpaused
-  have hX' : pausedX = ((stopForPause (hooked [k] r')).1, e0 ++ [Ev.sentCancel]) := hX
-  -- the delivered prefix at the pause
-  have hsteps : Steps lt pausedX.2 pausedX.1.R.todo := pause_resume_walk loc hloc lt u [k] _ hwk
-  obtain ⟨ld, hld1, hld2⟩ := steps_results hsteps hnm
-  have htodo' : pausedX.1.R.todo = r'.todo := by rw [hX']; rfl
-  obtain ⟨loaded, hq⟩ := hP.1.1
-  have hll : loaded = ld := hq.unique (by rw [← htodo']; exact hld1)
-  subst hll
-  have hlen : loaded.length = k := by
-    have := congrArg List.length hld1
-    simp only [List.length_append] at this
-    omega
-  -- the Unpause
-  have hops1 : m1.map toOp ++ [toOp M, PauseResume.Op.unpause] = (m1.map toOp ++ [toOp M]) ++ [PauseResume.Op.unpause] := by simp
-  have hpk : parkedX = ((PauseResume.unpause pausedX.1).1, pausedX.2 ++ (PauseResume.unpause pausedX.1).2) := by
-    show PauseResume.exchange loc lt u [k] (m1.map toOp ++ [toOp M, PauseResume.Op.unpause]) = _
-    rw [hops1, pexchange_snoc]
+  obtain ⟨rP, pre', n, rest, hpk1, hlt', h5, hkK, hw, hresP, _⟩ :=
+    reopen_reached loc hloc root tl u k m1 M w hwk hpre hctx hfail hpaused hnm hcur hre
+  have hpk1' : parkedX.1 = hooked [k] rP := hpk1
+  have hlt'' : lt = root :: pre' ++ n :: rest := hlt'
+  have htl : tl = pre' ++ n :: rest := by
+    have : root :: tl = root :: pre' ++ n :: rest := hlt'
+    simpa using this
+  -- the second response
+  have hops2 : m1.map toOp ++ [toOp M, PauseResume.Op.unpause, toOp ⟨true, true, st, mdOf items, blocksOfItems items⟩] =
+      (m1.map toOp ++ [toOp M, PauseResume.Op.unpause]) ++ [toOp ⟨true, true, st, mdOf items, blocksOfItems items⟩] := by simp
+  have hres : res = ((PauseResume.deliver parkedX.1 true true st (mdOf items) (blocksOfItems items)).1,
+      parkedX.2 ++ (PauseResume.deliver parkedX.1 true true st (mdOf items) (blocksOfItems items)).2) := by
+    show PauseResume.exchange loc lt u [k] _ = _
+    rw [hops2, pexchange_snoc]
     rfl
-  have hU := unpause_reopen lt u k r' loaded hP hq hk hlen
-  have hX1 : pausedX.1 = (stopForPause (hooked [k] r')).1 := by rw [hX']
-  rw [← hX1] at hU
-  rcases hU with hno | ⟨extra, n, rest, evs, rP, h1, h2, h3, h4, h5⟩
-  · exfalso
-    rw [hpk] at hre
-    simp only [sentNews_append, hno, List.append_nil] at hre
-    have := congrArg List.length hre
-    simp at this
-  · rw [h1] at hpk
-    simp only at hpk
-    -- the skip value of the re-sent request
-    have hw : w = max u (loaded ++ extra).length := by
-      rw [hpk] at hre
-      simp only [sentNews_append, h2, List.nil_append] at hre
-      have := List.append_cancel_left hre
-      simp only [sentNews, List.cons.injEq, and_true] at this
-      exact this.symm
-    -- the split of the link tree at the re-opening
-    have hk0 : 0 < k := by omega
-    cases hle : loaded ++ extra with
-    | nil =>
-      exfalso
-      have := congrArg List.length hle
-      simp only [List.length_append, List.length_nil] at this
-      omega
-    | cons root' pre' =>
-      rw [hle] at h4 h5 hw
-      have h4' : root :: tl = root' :: (pre' ++ n :: rest) := by
-        have : lt = root :: tl := rfl
-        rw [← this, h4]; simp
-      simp only [List.cons.injEq] at h4'
-      obtain ⟨hroot, htl⟩ := h4'
-      subst hroot
-      have hlt' : lt = root :: pre' ++ n :: rest := by
-        show root :: tl = _
-        rw [htl]; simp
-      -- the second response
-      have hops2 : m1.map toOp ++ [toOp M, PauseResume.Op.unpause, toOp ⟨true, true, st, mdOf items, blocksOfItems items⟩] =
-          (m1.map toOp ++ [toOp M, PauseResume.Op.unpause]) ++ [toOp ⟨true, true, st, mdOf items, blocksOfItems items⟩] := by simp
-      have hres : res = ((PauseResume.deliver parkedX.1 true true st (mdOf items) (blocksOfItems items)).1,
-          parkedX.2 ++ (PauseResume.deliver parkedX.1 true true st (mdOf items) (blocksOfItems items)).2) := by
-        show PauseResume.exchange loc lt u [k] _ = _
-        rw [hops2, pexchange_snoc]
-        rfl
-      have hd : DeadAt [k] rP := by
-        intro j hj
-        simp only [List.mem_singleton] at hj
-        rw [h5.nb]
-        have := congrArg List.length hle
-        simp only [List.length_append] at this
-        omega
-      have hL2 := parked_after_response rem rP.L lt w (by simp [lt]) h5.isOpen h5.rq
-      have hitems : items = respItemsW rem (root :: pre' ++ n :: rest) [] w := by
-        show respItemsW rem lt [] w = _
-        rw [hlt']
-      have hrp := requestor_reopen_partial rem rP [k] hd root pre' n rest w st hst h5.run h5.sent h5.ctx h5.todo
-        (fun m hm => hdep m (by rw [htl]; exact List.mem_append_right _ hm))
-        (by rw [← hlt']; exact hwf) hroot0 (by rw [← htl]; exact hne)
-        (by
-          have : (lt.map (·.path)) = (root :: pre').map (·.path) ++ (n :: rest).map (·.path) := by
-            rw [hlt']; simp
-          exact PathsDFS.prefix _ (this ▸ hdfs))
-        { rP.L with rq := { q := respItemsW rem lt [] w }, isOpen := false }
-        (by rw [← hlt']; exact hL2.symm)
-        h5.pend h5.mra h5.recd h5.ver rfl (by rw [← hlt']) (Or.inl (by
-          have : parkedX.1.R.L.unfollowed = rP.L.unfollowed := by rw [hpk]; rfl
-          rw [← this]; exact hunf))
-        h5.held hremroot
-        (by
-          intro it hit hp
-          have : parkedX.1.R.L.store = rP.L.store := by rw [hpk]; rfl
-          rw [← this]
-          exact hwin it hit hp)
-      simp only at hrp
-      rw [← hitems, ← hlt'] at hrp
-      obtain ⟨c1, c2, c3⟩ := hrp
-      have hpk1 : parkedX.1 = hooked [k] rP := by rw [hpk]
-      have hpk2 : parkedX.2 = pausedX.2 ++ (evs ++ [Ev.sentNew (max u (loaded ++ extra).length)]) := by rw [hpk]
-      have hstore : parkedX.1.R.L.store = rP.L.store := by rw [hpk1]; rfl
-      rw [hres]
-      simp only
-      rw [hpk1, hpk2]
-      have hhk : (hooked [k] rP).R = rP := rfl
-      rw [hhk]
-      refine ⟨?_, c2, c3, (loaded ++ extra).length, ?_, ?_, ?_, ?_⟩
-      · simp only [resultsOf_append, hld2, h3]
-        have hs0 : resultsOf [Ev.sentNew (max u (loaded ++ extra).length)] = [] := rfl
-        rw [hs0, List.append_nil, ← c1, ← hle]
-        simp
-      · simp only [List.length_append]; omega
-      · rw [hw, hle]
-      · rw [hle]; exact h5.nb
-      · intro m hm
-        have htk : lt.take (loaded ++ extra).length = root :: pre' := by
-          rw [hlt', hle]
-          simp
-        rw [htk] at hm
-        exact h5.held m hm
+  have hd : DeadAt [k] rP := by
+    intro j hj
+    simp only [List.mem_singleton] at hj
+    rw [h5.nb]
+    simp only [List.length_cons]
+    omega
+  have hL2 := parked_after_response rem rP.L lt w (by simp [lt]) h5.isOpen h5.rq
+  have hitems : items = respItemsW rem (root :: pre' ++ n :: rest) [] w := by
+    show respItemsW rem lt [] w = _
+    rw [hlt'']
+  have hstore : parkedX.1.R.L.store = rP.L.store := by rw [hpk1']; rfl
+  have hrp := requestor_reopen_partial rem rP [k] hd root pre' n rest w st hst h5.run h5.sent h5.ctx h5.todo
+    (fun m hm => hdep m (by rw [htl]; exact List.mem_append_right _ hm))
+    (by rw [← hlt'']; exact hwf) hroot0 (by rw [← htl]; exact hne)
+    (by
+      have : (lt.map (·.path)) = (root :: pre').map (·.path) ++ (n :: rest).map (·.path) := by
+        rw [hlt'']; simp
+      exact PathsDFS.prefix _ (this ▸ hdfs))
+    { rP.L with rq := { q := respItemsW rem lt [] w }, isOpen := false }
+    (by rw [← hlt'']; exact hL2.symm)
+    h5.pend h5.mra h5.recd h5.ver rfl (by rw [← hlt'']) (Or.inl (by
+      have : parkedX.1.R.L.unfollowed = rP.L.unfollowed := by rw [hpk1']; rfl
+      rw [← this]; exact hunf))
+    h5.held hremroot
+    (by
+      intro it hit hp
+      rw [← hstore]
+      exact hwin it hit hp)
+  simp only at hrp
+  rw [← hitems, ← hlt''] at hrp
+  obtain ⟨c1, c2, c3⟩ := hrp
+  rw [hres]
+  simp only
+  rw [hstore, hpk1']
+  refine ⟨?_, c2, c3⟩
+  rw [resultsOf_append, hresP, ← c1]
+
+/-! ### the comparison with the uninterrupted exchange, when the responder holds the whole DAG -/
+
+theorem holds_cons_eq (st : List (Cid × Blk)) (a : Cid) (b : Blk) (c : Cid) :
+    holds ((a, b) :: st) c = ((a == c) || holds st c) := by
+  unfold holds storeGet
+  simp only [List.find?_cons]
+  by_cases h : (a == c) = true
+  · simp [h]
+  · simp [h]
+
+/-- the reference traversal when the responder holds every block: everything is delivered, and the
+    final store is the initial one plus the blocks of the link tree -/
+theorem refTrav_full (rem : Cid → Bool) : ∀ (lt : LT) (st : List (Cid × Blk)), (∀ m ∈ lt, rem m.cid = true) →
+    (refTrav rem lt st none).1 = lt.map (fun m => (m, true)) ∧
+    ∀ c, holds (refTrav rem lt st none).2 c = (holds st c || lt.any (fun m => m.cid == c))
+  | [], st, _ => by rw [refTrav]; simp
+  | n :: rest, st, h => by
+    have hr : rem n.cid = true := h n (by simp)
+    have hd : dead1 none n = none := rfl
+    cases hh : holds st n.cid with
+    | true =>
+      rw [refTrav_holds rem n rest st none hh]
+      have hdd : (if (dead1 none n).isNone && !rem n.cid then some n.depth else dead1 none n) = none := by
+        simp [hd, hr]
+      rw [hdd]
+      obtain ⟨i1, i2⟩ := refTrav_full rem rest st (fun m hm => h m (by simp [hm]))
+      refine ⟨by simp [i1], fun c => ?_⟩
+      rw [i2 c]
+      simp only [List.any_cons]
+      by_cases hc : (n.cid == c) = true
+      · have : n.cid = c := eq_of_beq hc
+        subst this
+        simp [hh]
+      · simp [hc]
+    | false =>
+      rw [refTrav_remote rem n rest st none hh (by simp [hd, hr]), hd]
+      obtain ⟨i1, i2⟩ := refTrav_full rem rest ((n.cid, n.cid) :: st) (fun m hm => h m (by simp [hm]))
+      refine ⟨by simp [i1], fun c => ?_⟩
+      rw [i2 c, holds_cons_eq]
+      simp only [List.any_cons]
+      cases (n.cid == c) <;> cases holds st c <;> simp
+
+theorem blocksOf_resultsOf (evs : List Ev) :
+    PauseResume.blocksOf evs = (resultsOf evs).filterMap (fun x => if x.2.2 then some (x.1, x.2.1) else none) := by
+  induction evs with
+  | nil => rfl
+  | cons e rest ih =>
+    cases e with
+    | err r =>
+      cases r with
+      | load le => cases le <;> simp [PauseResume.blocksOf, resultsOf] at ih ⊢ <;> exact ih
+      | status c => simp [PauseResume.blocksOf, resultsOf] at ih ⊢; exact ih
+      | other => simp [PauseResume.blocksOf, resultsOf] at ih ⊢; exact ih
+    | block c p l i => simp [PauseResume.blocksOf, resultsOf] at ih ⊢; exact ih
+    | _ => simp [PauseResume.blocksOf, resultsOf] at ih ⊢ <;> exact ih
+
+theorem missingOf_resultsOf (evs : List Ev) :
+    missingOf evs = (resultsOf evs).filterMap (fun x => if x.2.2 then none else some (x.1, x.2.1)) := by
+  induction evs with
+  | nil => rfl
+  | cons e rest ih =>
+    cases e with
+    | err r =>
+      cases r with
+      | load le => cases le <;> simp [missingOf, resultsOf] at ih ⊢ <;> exact ih
+      | status c => simp [missingOf, resultsOf] at ih ⊢; exact ih
+      | other => simp [missingOf, resultsOf] at ih ⊢; exact ih
+    | block c p l i => simp [missingOf, resultsOf] at ih ⊢; exact ih
+    | _ => simp [missingOf, resultsOf] at ih ⊢ <;> exact ih
+
+/-- **C06.requestor_pause_resume_online** — a requestor-side pause after the request went online,
+    followed by a resume that goes online again, gives the result of the uninterrupted exchange.
+
+    Region: the responder holds every block of the DAG (`hrem`: no block is missing on either side, so
+    C02's classes `root-not-found-abort` / `skip-prefix-mismatch` — on the first request and on resume —
+    cannot occur), no user skip value, well-formed link tree with depth-first paths.  The requestor holds
+    the first `N = |root :: pre0'| ≥ 1` blocks and misses `n0` (as in `C02.exchange_complete_prefix`).
+
+    `base` — the UNINTERRUPTED exchange: the honest response to the request (skip `N`) arrives as one
+    message with its final status.
+
+    `res` — the PAUSED AND RESUMED exchange, hook pause at block `k`: any messages `m1` during which
+    block `k` is not loaded, then a message `M` (any content, e.g. the first part of the honest
+    response; no failure status) during which the hook pauses the request at block `k` — after the
+    request went online, `M` being a response message — with every load so far delivered (`hnm`, `hcur`);
+    `Unpause`; the resumed executor consumes what is left in the queue / held locally, misses locally,
+    goes online again discarding the unconsumed items of the cancelled response (/repo b4f998f) and
+    re-sends the request with do-not-send-first-blocks `w` (`hre`); nothing of the cancelled response
+    arrives any more (negation of the known finding `stale-response-after-resume`); the honest response
+    to the resumed request arrives as one message.  `hunf`: the path tracker holds no stale value at
+    that moment (a fact about the state; it holds whenever every entry of `m1`, `M` was "present").
+
+    Then the paused and resumed exchange reports exactly the same answers in the same order — the same
+    delivered blocks, the same (no) missing-block errors — and ends with the same stored blocks as the
+    uninterrupted exchange: every link of the tree delivered, the store = the initial one plus the
+    blocks of the DAG. -/
+theorem requestor_pause_resume_online (rem : Cid → Bool) (loc : List (Cid × Blk)) (hloc : HonestStore loc)
+    (root : LNode) (pre0' : LT) (n0 : LNode) (post0 : LT) (k : Nat) (m1 : List Requestor.Msg) (M : Requestor.Msg)
+    (w st1 st2 : Nat) (hst1 : st1 = 20 ∨ st1 = 21) (hst2 : st2 = 20 ∨ st2 = 21)
+    (hrem : ∀ m ∈ root :: pre0' ++ n0 :: post0, rem m.cid = true)
+    (hwf : Loader.WF (root :: pre0' ++ n0 :: post0)) (hroot0 : root.path = [])
+    (hne : ∀ m ∈ pre0' ++ n0 :: post0, m.path ≠ []) (hdep : ∀ m ∈ pre0' ++ n0 :: post0, m.depth ≠ 0)
+    (hdfs : PathsDFS ((root :: pre0' ++ n0 :: post0).map (·.path)))
+    (hheld0 : ∀ m ∈ root :: pre0', holds loc m.cid = true) (hmiss0 : holds loc n0.cid = false)
+    (hwk : ∀ m, PauseResume.Op.msg m ∈ m1.map toOp ++ [toOp M] → WellKeyed m.blocks)
+    (hpre : (Requestor.exchange loc (root :: pre0' ++ n0 :: post0) 0 m1).1.nBlocks < k)
+    (hctx : (Requestor.exchange loc (root :: pre0' ++ n0 :: post0) 0 m1).1.ctxCancelled = false)
+    (hfail : isFailure M.status = false) :
+    let lt := root :: pre0' ++ n0 :: post0
+    let items0 := respItemsW rem lt [] (pre0'.length + 1)
+    let base := Requestor.exchange loc lt 0 [⟨true, true, st1, mdOf items0, blocksOfItems items0⟩]
+    let pausedX := PauseResume.exchange loc lt 0 [k] (m1.map toOp ++ [toOp M])
+    let parkedX := PauseResume.exchange loc lt 0 [k] (m1.map toOp ++ [toOp M, PauseResume.Op.unpause])
+    let items := respItemsW rem lt [] w
+    let res := PauseResume.exchange loc lt 0 [k]
+      (m1.map toOp ++ [toOp M, PauseResume.Op.unpause, toOp ⟨true, true, st2, mdOf items, blocksOfItems items⟩])
+    pausedX.1.paused = true →
+    missingOf pausedX.2 = [] → pausedX.1.R.todo.length + k = lt.length →
+    sentNews parkedX.2 = sentNews pausedX.2 ++ [w] →
+    parkedX.1.R.L.unfollowed = [] →
+    resultsOf res.2 = resultsOf base.2 ∧
+    PauseResume.blocksOf res.2 = PauseResume.blocksOf base.2 ∧ missingOf res.2 = missingOf base.2 ∧
+    (∀ c, holds res.1.R.L.store c = holds base.1.L.store c) ∧
+    res.1.paused = false ∧
+    resultsOf res.2 = lt.map (fun m => (m.cid, m.path, true)) ∧
+    (∀ c, holds res.1.R.L.store c = (holds loc c || lt.any (fun m => m.cid == c))) := by
+  intro lt items0 base pausedX parkedX items res hpaused hnm hcur hre hunf
+  have hremroot : rem root.cid = true := hrem root (by simp)
+  -- the uninterrupted exchange is the reference traversal over the initial store
+  have hbase := GS.C02.exchange_complete_prefix rem loc root pre0' n0 post0 st1 hst1 hwf hroot0 hne
+    (fun m hm => hdep m (List.mem_append_right _ hm))
+    (by
+      have : (root :: pre0' ++ n0 :: post0).map (·.path) = (root :: pre0').map (·.path) ++ (n0 :: post0).map (·.path) := by simp
+      exact PathsDFS.prefix _ (this ▸ hdfs))
+    hheld0 hmiss0 hremroot
+    (fun it hit _ => win_of_prefix_held rem loc (root :: pre0') (n0 :: post0) []
+      (fun m hm => hrem m (by
+        simp only [List.mem_cons] at hm
+        rcases hm with rfl | hm
+        · simp
+        · simp [hm])) hheld0 it hit)
+  simp only at hbase
+  obtain ⟨b1, _, b3⟩ := hbase
+  have b1' : resultsOf base.2 = (refTrav rem lt loc none).1.map keyOf := b1
+  have b3' : ∀ c, holds base.1.L.store c = holds (refTrav rem lt loc none).2 c := b3
+  -- the state at the re-opening
+  obtain ⟨rP, pre', n, rest, hpk1, hlt', h5, hkK, hw, hresP, ldq, hqq⟩ :=
+    reopen_reached loc hloc root (pre0' ++ n0 :: post0) 0 k m1 M w hwk hpre hctx hfail hpaused hnm hcur hre
+  have hpk1' : parkedX.1 = hooked [k] rP := hpk1
+  have hlt'' : lt = root :: pre' ++ n :: rest := hlt'
+  have hstore : parkedX.1.R.L.store = rP.L.store := by rw [hpk1']; rfl
+  have hw' : w = (root :: pre').length := by rw [hw]; simp
+  have hwin : ∀ it ∈ items.take w, it.action = .present → holds parkedX.1.R.L.store it.link = true := by
+    intro it hit _
+    rw [hstore]
+    have hitems : items = respItemsW rem ((root :: pre') ++ n :: rest) [] (root :: pre').length := by
+      show respItemsW rem lt [] w = _
+      rw [hlt'', hw']
+    rw [hitems, hw'] at hit
+    exact win_of_prefix_held rem rP.L.store (root :: pre') (n :: rest) []
+      (fun m hm => hrem m (by
+        have : m ∈ lt := by rw [hlt'']; simp only [List.mem_cons, List.mem_append] at hm ⊢; rcases hm with h | h <;> simp [h]
+        exact this)) h5.held it hit
+  obtain ⟨a1, a2, a3⟩ := requestor_reopen_online rem loc hloc root (pre0' ++ n0 :: post0) 0 k m1 M w st2 hst2
+    hwf hroot0 hne hdep hdfs hwk hpre hctx hfail hpaused hnm hcur hre hunf hremroot hwin
+  have a1' : resultsOf res.2 = (refTrav rem lt parkedX.1.R.L.store none).1.map keyOf := a1
+  have a2' : ∀ c, holds res.1.R.L.store c = holds (refTrav rem lt parkedX.1.R.L.store none).2 c := a2
+  have fS := refTrav_full rem lt parkedX.1.R.L.store hrem
+  have fL := refTrav_full rem lt loc hrem
+  have hres_eq : resultsOf res.2 = resultsOf base.2 := by rw [a1', b1', fS.1, fL.1]
+  have hstS : ∀ c, (holds parkedX.1.R.L.store c || lt.any (fun m => m.cid == c)) =
+      (holds loc c || lt.any (fun m => m.cid == c)) := by
+    intro c
+    rw [hstore]
+    cases hl : holds loc c with
+    | true => rw [hqq.mono c hl]
+    | false =>
+      cases hs : holds rP.L.store c with
+      | false => rfl
+      | true =>
+        rcases hqq.orig c hs with h | ⟨m, hm, hmc⟩
+        · rw [hl] at h; cases h
+        · have : lt.any (fun m => m.cid == c) = true := List.any_eq_true.mpr ⟨m, hm, by simp [hmc]⟩
+          rw [this]; rfl
+  refine ⟨hres_eq, ?_, ?_, ?_, a3, ?_, ?_⟩
+  · rw [blocksOf_resultsOf, blocksOf_resultsOf, hres_eq]
+  · rw [missingOf_resultsOf, missingOf_resultsOf, hres_eq]
+  · intro c
+    rw [a2' c, b3' c, fS.2 c, fL.2 c, hstS c]
+  · rw [a1', fS.1]
+    simp [keyOf]
+  · intro c
+    rw [a2' c, fS.2 c, hstS c]
+
+/-- non-vacuity of `reopen_reached` / `requestor_reopen_online` / `requestor_pause_resume_online`
+    (concrete values): root 9 with children 2, 3, 4; the requestor holds the root only, the responder
+    everything.  The request goes online at block 2 (skip 1); the first message of the response brings
+    the entries of 9 and 2 with block 2 (status PartialResponse); the hook pauses after block 2 — one
+    local and one REMOTE load are in the traversal record; `Unpause`; the executor misses block 3
+    locally, goes online again and re-sends the request with do-not-send-first-blocks 2.  Every
+    hypothesis of the theorems holds, and the honest second response (entries 9, 2 without blocks, 3 and
+    4 with blocks) delivers 3 and 4: the exchange reports 9, 2, 3, 4 like the uninterrupted one. -/
+example :
+    let root : LNode := ⟨9, [], 0, 1, 0⟩
+    let n2 : LNode := ⟨2, [0], 1, 1, 0⟩
+    let n3 : LNode := ⟨3, [1], 1, 1, 0⟩
+    let n4 : LNode := ⟨4, [2], 1, 1, 0⟩
+    let lt : LT := [root, n2, n3, n4]
+    let rem : Cid → Bool := fun c => [9, 2, 3, 4].contains c
+    let loc : List (Cid × Blk) := [(9, 9)]
+    let M : Requestor.Msg := ⟨true, true, 14, [(9, .present), (2, .present)], [(2, 2)]⟩
+    let pausedX := PauseResume.exchange loc lt 0 [2] (([] : List Requestor.Msg).map toOp ++ [toOp M])
+    let parkedX := PauseResume.exchange loc lt 0 [2] (([] : List Requestor.Msg).map toOp ++ [toOp M, PauseResume.Op.unpause])
+    let items : List Item := [⟨9, .present, none⟩, ⟨2, .present, none⟩, ⟨3, .present, some 3⟩, ⟨4, .present, some 4⟩]
+    let items0 : List Item := [⟨9, .present, none⟩, ⟨2, .present, some 2⟩, ⟨3, .present, some 3⟩, ⟨4, .present, some 4⟩]
+    let res := PauseResume.exchange loc lt 0 [2]
+      (([] : List Requestor.Msg).map toOp ++ [toOp M, PauseResume.Op.unpause, toOp ⟨true, true, 20, mdOf items, blocksOfItems items⟩])
+    let base := Requestor.exchange loc lt 0 [⟨true, true, 20, mdOf items0, blocksOfItems items0⟩]
+    (∀ m ∈ lt, rem m.cid = true) ∧ Loader.WF lt ∧ PathsDFS (lt.map (·.path)) ∧
+    holds loc 9 = true ∧ holds loc 2 = false ∧ HonestStore loc ∧
+    (Requestor.exchange loc lt 0 []).1.nBlocks < 2 ∧ (Requestor.exchange loc lt 0 []).1.ctxCancelled = false ∧
+    isFailure M.status = false ∧
+    pausedX.1.paused = true ∧ missingOf pausedX.2 = [] ∧ pausedX.1.R.todo.length + 2 = lt.length ∧
+    sentNews parkedX.2 = sentNews pausedX.2 ++ [2] ∧ parkedX.1.R.L.unfollowed = [] ∧
+    respItemsW rem lt [] 2 = items ∧ respItemsW rem lt [] 1 = items0 ∧
+    parkedX.2 = [.block 9 [] true 1, .prog 1, .sentNew 1, .write 2 2, .block 2 [0] false 2, .prog 1,
+      .sentCancel, .sentNew 2] ∧
+    resultsOf res.2 = [(9, [], true), (2, [0], true), (3, [1], true), (4, [2], true)] ∧
+    resultsOf base.2 = [(9, [], true), (2, [0], true), (3, [1], true), (4, [2], true)] := by
+  refine ⟨by decide, ?_, by decide, by decide, by decide, ?_, by decide, by decide, by decide, by decide, by decide,
+    by decide, by decide, by decide, ?_, ?_, by decide, by decide, by decide⟩
+  · simp [Loader.WF, subOf, skipSub, below]
+  · intro c b h; simp at h; rw [h.1, h.2]
+  · simp [respItemsW]
+  · simp [respItemsW]
 
 end GS.C06
